@@ -15,7 +15,11 @@ ALPHAS = {'REQ': space.alphabet('AND', 'XOR', 'GT', 'NOT'), 'FULL': space.FULL, 
 
 
 def plan(tier):
-    t = [{'kind': 'ops'}]
+    t = [{'kind': 'ops'}, {'kind': 'wideops'}]
+    for pat in space.DEEP_PATTERNS:
+        for L in space.DEEP_LENGTHS[tier]:
+            for st_ in ('fwd', 'rev'):
+                t.append({'kind': 'deep', 'pattern': pat, 'L': L, 'storage': st_})
     fams = [(1, 1, 'FULL', 0), (1, 2, 'FULL', 1), (2, 1, 'FULL', 1), (2, 2, 'FULL', 1), (3, 1, 'FULL', 1),
             (2, 1, 'S4', 1)]
     if tier == 'thorough':
@@ -33,7 +37,7 @@ def plan(tier):
 
 def describe(tier):
     return {
-        'rule': 'operators: every gate type x every operand vector over {False,True,Undefined} (arity<=4 for n-ary); '
+        'rule': 'wide: every n-ary type with 255/256/257/300 operands over a stated operand alphabet (uniform, alternating, one deviating or Undefined operand at the first/middle/last/256th position); deep: chains of 1200/3000 (thorough 7000) gates, six patterns, both storage orders x all 27 partial assignments x five entry points; operators: every gate type x every operand vector over {False,True,Undefined} (arity<=4 for n-ary); '
         'circuits: every circuit of F(n,k,A) x all 3^n partial assignments x {absent, explicit Undefined} x '
         '{evaluate_full_circuit, evaluate_circuit (default outputs = all sinks, and outputs=[g] for every g), '
         'evaluate_circuit_outputs}; soundness against all completions, monotonicity along every covering pair '
@@ -403,9 +407,165 @@ def check_requests(n, gates, acc):
                         break
 
 
+def check_deep(acc, pattern, L, storage):
+    """Partial assignments on a chain deeper than the recursion limit: all 3^3 assignments x entry points."""
+    from cirbo.core.circuit.operators import Undefined
+
+    c, net = space.deep_chain(pattern, L, storage)
+    ref = net.tables()
+    n = len(net.inputs)
+    mask = (1 << (1 << n)) - 1
+    iv = refmodel.input_vectors_cached(n)
+    case = {'deep_chain': pattern, 'length': L, 'storage': storage}
+    acc.states += 1
+    st = (False, True, Undefined)
+    results = {}
+    for p in itertools.product(range(3), repeat=n):
+        comp = _comp_mask(p, iv, mask)
+        total = 2 not in p
+        a = {net.inputs[i]: bool(v) for i, v in enumerate(p) if v != 2}
+
+        def judge(site, items, evaluated):
+            for l, v in items:
+                if _isb(v):
+                    r = ref[l] & comp
+                    if (v and r != comp) or (not v and r != 0):
+                        acc.violation(f'{site}/unsound', case, f'partial {p}: {l} reported {v}')
+                        return
+                elif not (v == Undefined):
+                    acc.violation(f'{site}/not-a-gate-state', case, f'{l}: {v!r}')
+                    return
+                elif total and (evaluated is None or l in evaluated):
+                    acc.violation(f'{site}/undefined-under-total-assignment', case, f'partial {p}: {l}')
+                    return
+
+        runs = [('evaluate_full_circuit', lambda: c.evaluate_full_circuit(dict(a)), None),
+                ('evaluate_circuit', lambda: c.evaluate_circuit(dict(a)), set(net.outputs)),
+                ('evaluate_circuit_outputs', lambda: c.evaluate_circuit_outputs(dict(a)), set(net.outputs))]
+        for site, fn, evaluated in runs:
+            acc.transitions += 1
+            acc.traces += 1
+            ok, res = guarded(acc, site, case, fn)
+            if ok:
+                judge(site, res.items(), evaluated)
+                results[(site, p)] = {l: res.get(l) for l in net.outputs}
+        seq = [st[v] for v in p]
+        acc.transitions += 1 + len(net.outputs)
+        ok, res = guarded(acc, 'evaluate', case, c.evaluate, list(seq))
+        if ok:
+            judge('evaluate', zip(net.outputs, res), None)
+            results[('evaluate', p)] = dict(zip(net.outputs, res))
+        for i, o in enumerate(net.outputs):
+            ok, v = guarded(acc, 'evaluate_at', case, c.evaluate_at, list(seq), i)
+            if ok:
+                judge('evaluate_at', [(o, v)], None)
+    for (site, p), res in results.items():
+        for pos in range(n):
+            if p[pos] != 2:
+                continue
+            for b in (0, 1):
+                rq = results.get((site, p[:pos] + (b,) + p[pos + 1:]))
+                if rq is None:
+                    continue
+                for l, v in res.items():
+                    if _isb(v) and rq.get(l) is not v:
+                        acc.violation(f'{site}/non-monotone', case, f'{l}: {v} under {p}, {rq.get(l)!r} with input {pos} := {b}')
+                        break
+    acc.outcome('defined', ('deep', pattern, L))
+
+
+WIDE_ARITIES = (255, 256, 257, 300)
+
+
+def wide_vectors(ar):
+    """stated operand alphabet for very wide gates: (name, list of 0/1/2) with 2 = Undefined"""
+    mid = ar // 2
+    out = [('all-true', [1] * ar), ('all-false', [0] * ar), ('alternating', [i % 2 for i in range(ar)])]
+    for pos in (0, mid, ar - 2, ar - 1):
+        for base in (0, 1):
+            for val in (1 - base, 2):
+                v = [base] * ar
+                v[pos] = val
+                out.append((f'all-{base}-but-{val}-at-{pos}', v))
+    v = [1] * ar
+    v[0], v[ar - 1] = 2, 0
+    out.append(('undefined-first-false-last', v))
+    v = [0] * ar
+    v[1], v[ar - 1] = 2, 1
+    out.append(('undefined-second-true-last', v))
+    v = [1] * ar
+    v[255 if ar > 255 else ar - 1] = 2
+    out.append(('undefined-at-255', v))
+    return out
+
+
+def check_wide_ops(acc, boolean_only=False, prefix=''):
+    """n-ary gate types with 255..300 operands (beyond any call-arity or block-size threshold): the operator
+    itself and a one-gate circuit through the evaluation entry points."""
+    from cirbo.core.circuit import Circuit, gate as G
+    from cirbo.core.circuit.operators import Undefined
+
+    st = (False, True, Undefined)
+    for t in refmodel.SYM:
+        for ar in WIDE_ARITIES:
+            ins = [f'w{i}' for i in range(ar)]
+            c = Circuit()
+            c.add_inputs(ins)
+            c.emplace_gate('wide', getattr(G, t), tuple(ins))
+            c.emplace_gate('after', G.NOT, ('wide',))
+            c.set_outputs(['wide', 'after'])
+            c = space.variant(c)
+            for name, vec in wide_vectors(ar):
+                if boolean_only and 2 in vec:
+                    continue
+                acc.states += 1
+                acc.transitions += 3
+                acc.traces += 1
+                case = {'type': t, 'arity': ar, 'operands': name}
+                und = [i for i, v in enumerate(vec) if v == 2]
+                poss = set()
+                for comb in itertools.product((False, True), repeat=len(und)):
+                    full = [bool(v) for v in vec]
+                    for i, b in zip(und, comb):
+                        full[i] = b
+                    poss.add(refmodel.gate_bool(t, full))
+                ops = [st[v] for v in vec]
+                results = []
+                try:
+                    results.append(('operator', getattr(G, t).operator(*ops)))
+                    results.append(('Gate.operator', c.get_gate('wide').operator(*ops)))
+                    a = {ins[i]: bool(v) for i, v in enumerate(vec) if v != 2}
+                    r = c.evaluate_circuit(a)
+                    results.append(('evaluate_circuit', r['wide']))
+                    results.append(('evaluate_circuit(after)', r['after'] if not _isb(r['after']) else (not r['after'])))
+                    r = c.evaluate_full_circuit(a)
+                    results.append(('evaluate_full_circuit', r['wide']))
+                    if not und:
+                        results.append(('evaluate', c.evaluate([bool(v) for v in vec])[0]))
+                except Exception as e:  # noqa: BLE001
+                    acc.violation(f'{prefix}wide-gate/raises-{type(e).__name__}', case, repr(e)[:200])
+                    continue
+                for site, v in results:
+                    if _isb(v):
+                        if poss != {v}:
+                            acc.violation(f'{prefix}{site}/unsound' if und else f'{prefix}{site}/wrong-value', case, f'reports {v}, completions give {sorted(poss)}')
+                            break
+                    elif not (v == Undefined):
+                        acc.violation(f'{prefix}{site}/not-a-gate-state', case, repr(v))
+                        break
+                    elif not und:
+                        acc.violation(f'{prefix}{site}/undefined-under-total-assignment', case, '')
+                        break
+                acc.outcome('op', (t, ar, name))
+
+
 def run_task(task, acc):
     if task['kind'] == 'ops':
         return check_ops(acc)
+    if task['kind'] == 'wideops':
+        return check_wide_ops(acc)
+    if task['kind'] == 'deep':
+        return check_deep(acc, task['pattern'], task['L'], task['storage'])
     alpha = ALPHAS[task['alpha']]
     if task['kind'] == 'req':
         for gates in space.enum_gates(task['n'], task['k'], alpha, space.prefix_from_task(task)):
@@ -420,6 +580,10 @@ def run_task(task, acc):
 def replay(case, acc):
     if 'task' in case:
         return run_task(case['task'], acc)
+    if 'deep_chain' in case:
+        return check_deep(acc, case['deep_chain'], case['length'], case['storage'])
+    if 'arity' in case:
+        return check_wide_ops(acc)
     if 'gates' in case:
         n, gates, _ = space.spec_from_json(case)
         if 'scenario' in case:
